@@ -43,16 +43,17 @@ type Step struct {
 }
 
 type Program struct {
-	ID     string      `json:"id"`
-	Set    Settings    `json:"set"`
-	Derive []Step      `json:"derive,omitempty"`
-	Entry  string      `json:"entry,omitempty"` // "" = WithLevel(Level); or Trace..Panic, Log, Err
-	Level  int         `json:"level"`           // zerolog level number (6 = NoLevel)
-	Ev     []Op        `json:"ev,omitempty"`
-	Fin    string      `json:"fin,omitempty"` // Msg (default) | Msgf | MsgFunc | Send
-	Msg    B           `json:"msg,omitempty"`
-	Abs    interface{} `json:"abs,omitempty"`    // the abstract program this was concretised from (echoed into the recording)
-	Opaque []string    `json:"opaque,omitempty"` // member names whose value comes from an external marshaler (json.Marshal, RawJSON)
+	ID       string      `json:"id"`
+	Set      Settings    `json:"set"`
+	Derive   []Step      `json:"derive,omitempty"`
+	Entry    string      `json:"entry,omitempty"` // "" = WithLevel(Level); or Trace..Panic, Log, Err
+	Level    int         `json:"level"`           // zerolog level number (6 = NoLevel)
+	Ev       []Op        `json:"ev,omitempty"`
+	Fin      string      `json:"fin,omitempty"` // Msg (default) | Msgf | MsgFunc | Send
+	Msg      B           `json:"msg,omitempty"`
+	Abs      interface{} `json:"abs,omitempty"`      // the abstract program this was concretised from (echoed into the recording)
+	Opaque   []string    `json:"opaque,omitempty"`   // member names whose value comes from an external marshaler (json.Marshal, RawJSON)
+	OpaqueEl []string    `json:"opaqueel,omitempty"` // member names whose value is an array with externally rendered ELEMENTS
 }
 
 type HookCall struct {
